@@ -756,14 +756,14 @@ func (l *lexer) scanHeredoc() bool {
 				if r.Op == "<<-" {
 					s = strings.TrimLeft(s, "\t")
 				}
-				if strings.ContainsRune(s, '\n') {
-					break
-				} else if s == delim {
-					r.Heredoc = l.word[:i]
+				if s == delim {
+					r.Heredoc = concat(l.word[:i])
 					r.Delim = l.word[i:]
 					l.word = nil
 					return true
 				}
+				// the line which ends here starts at this part
+				break
 			}
 		}
 		return false
@@ -811,14 +811,8 @@ func (l *lexer) scanHeredoc() bool {
 					l.b.WriteByte('\n')
 					l.lit()
 				} else if w1, ok := l.word[len(l.word)-1].(*ast.Lit); ok {
+					// (the lines are concatenated when the delimiter is found)
 					w1.Value += "\n"
-					// concatenate
-					if len(l.word) > 1 {
-						if w2, ok := l.word[len(l.word)-2].(*ast.Lit); ok && w2.End() == w1.Pos() {
-							w2.Value += w1.Value
-							l.word = l.word[:len(l.word)-1]
-						}
-					}
 				} else {
 					l.b.WriteByte('\n')
 					l.lit()
@@ -863,6 +857,37 @@ func (l *lexer) scanHeredoc() bool {
 	}
 	l.mark(0)
 	return true
+}
+
+// concat concatenates the literals of w which are adjacent in the source.
+func concat(w ast.Word) ast.Word {
+	rv := make(ast.Word, 0, len(w))
+	var b strings.Builder
+	var lit *ast.Lit
+	var end ast.Pos
+	flush := func() {
+		if lit != nil {
+			lit.Value = b.String()
+			rv = append(rv, lit)
+			lit = nil
+			b.Reset()
+		}
+	}
+	for _, p := range w {
+		if w, ok := p.(*ast.Lit); ok {
+			if lit == nil || end != w.Pos() {
+				flush()
+				lit = w
+			}
+			b.WriteString(w.Value)
+			end = w.End()
+		} else {
+			flush()
+			rv = append(rv, p)
+		}
+	}
+	flush()
+	return rv
 }
 
 func (l *lexer) scanArithExpr(pos ast.Pos) int {
